@@ -35,7 +35,7 @@ for patch in args:
                 und[p] = ['checker crashed: %r' % e]; continue
             known = [k for k in result.load_known() if k.get('property') == p and k.get('status') == 'open']
             v = ['%s: %s at %s: %s' % (o['rule'], o['instance'], o['where'].replace(d + '/', ''), o['detail'][:160]) for o in r.obs if o['verdict'] == VIOL and
-                 not any(k['rule'] == o['rule'] and k['function'] == o['function'] and k['expr'] == o['expr'] for k in known)]
+                 result.is_known(o, known) is None]
             u = ['%s: %s: %s' % (o['rule'], o['instance'], o['detail'][:160]) for o in r.obs if o['verdict'] == UNDEC] + ['%s below minimum (%d < %d)' % m for m in r.minimums if m[1] < m[2]]
             if v: fired[p] = v
             elif u: und[p] = u
